@@ -139,7 +139,7 @@ static char *db_name(const char *path, unsigned long id) {     /* first entry wi
 }
 
 /* ------------------------------------------------------------------ the work done inside the constructed state */
-struct job { int nf; char **f; const char *cwd_known; int cwd_none; };
+struct job { int nf; char **f; const char *cwd_known; int cwd_none; const char *tag; };
 
 static void put_list_field(FILE *o, char **v) {
     if (!v) { fputs("~", o); return; }
@@ -160,7 +160,7 @@ static void measure_and_run(struct job *j) {
     unsigned long fsbase = 0; syscall(SYS_arch_prctl, ARCH_GET_FS, &fsbase);
     struct timespec ts; syscall(SYS_clock_gettime, CLOCK_REALTIME, &ts);
     long sec = fake_clock ? fake_sec : ts.tv_sec, usec = fake_clock ? fake_usec : ts.tv_nsec / 1000;
-    fprintf(o, "ok\t%u,%u,%u,%u,%u,%u,%ld,%ld,%ld,%ld,%lu,%ld,%ld,%ld\t", ru, eu, su, rg, eg, sg, pid, ppid, sess, pgrp, fsbase, tid, sec, usec);
+    fprintf(o, "ok:%s\t%u,%u,%u,%u,%u,%u,%ld,%ld,%ld,%ld,%lu,%ld,%ld,%ld\t", j->tag ? j->tag : "main", ru, eu, su, rg, eg, sg, pid, ppid, sess, pgrp, fsbase, tid, sec, usec);
     /* cwd */
     {
         char lb[8192]; ssize_t n = readlink("/proc/self/cwd", lb, sizeof lb - 1);
@@ -303,7 +303,7 @@ static void *thread_main(void *p) { measure_and_run((struct job *)p); return 0; 
 
 /* ------------------------------------------------------------------ construction */
 static void construct_and_run(int nf, char **f) {
-    struct job j = {nf, f, 0, 0};
+    struct job j = {nf, f, 0, 0, "main"};
     const char *v;
     char dir[PATH_MAX]; snprintf(dir, sizeof dir, "%s/c%d", scratch, (int)getpid()); mkdir(dir, 0755);
     if ((v = kv(nf, f, "clock")) && strcmp(v, "real")) { fake_clock = 1; fake_sec = atol(v); const char *d = strchr(v, '.'); fake_usec = d ? atol(d + 1) : 0; }
@@ -375,6 +375,9 @@ static void construct_and_run(int nf, char **f) {
             chmod(p, 0644); utmpname(p); alt_utmp = strdup(p);
         }
     }
+    /* multi-step states: "pre=1" evaluates every source once HERE, before the session / ancestor chain / environment / ids change
+     * (in this process or in the children forked below), so that anything a source remembered from its first call shows later */
+    if ((v = kv(nf, f, "pre")) && !strcmp(v, "1")) { struct job jp = j; jp.tag = "pre"; measure_and_run(&jp); }
     /* session / process group / ancestor chain: done by forking further; the leaf runs the sources */
     const char *sess = kv(nf, f, "sess"); const char *chain = kv(nf, f, "chain");
     int depth = 0; char rootname[64] = "";
@@ -396,7 +399,9 @@ static void construct_and_run(int nf, char **f) {
             char nm[16]; snprintf(nm, sizeof nm, "lvl%d", d); prctl(PR_SET_NAME, nm);
         }
     }
-    if (sess && !strcmp(sess, "setsid")) {
+    if (sess && !strcmp(sess, "inplace")) {
+        if (setsid() < 0) die("setsid-inplace");                             /* same process: not a group leader, so this is allowed */
+    } else if (sess && !strcmp(sess, "setsid")) {
         pid_t c = fork(); if (c < 0) die("fork-sid");                       /* a group leader cannot setsid */
         if (c > 0) { int st; waitpid(c, &st, 0); relay(st); }
         if (setsid() < 0) die("setsid");
@@ -429,6 +434,14 @@ static void construct_and_run(int nf, char **f) {
     if (v && !strcmp(v, "other")) { pthread_t t; if (pthread_create(&t, 0, thread_main, &j)) die("pthread"); pthread_join(t, 0); }
     else measure_and_run(&j);
     fflush(OUT);
+    /* "post=fork|vfork": once more in a child of the process that has just evaluated everything */
+    if ((v = kv(nf, f, "post"))) {
+        struct job jq = j; jq.tag = "post";
+        pid_t c = !strcmp(v, "vfork") ? vfork() : fork();
+        if (c < 0) die("post-fork");
+        if (c == 0) { measure_and_run(&jq); fflush(OUT); _exit(0); }
+        int st; waitpid(c, &st, 0); relay(st);
+    }
     _exit(0);
 }
 
@@ -456,7 +469,9 @@ int main(int argc, char **argv) {
         close(pfd[0]);
         int st; waitpid(pid, &st, 0);
         int complete = rn > 0 && res[rn - 1] == '\n';
-        if (complete && !memchr(res, '\n', rn - 1)) { fwrite(res, 1, rn, stdout); }
+        int allok = complete && !memmem(res, rn, "\001EXIT:", 6);
+        for (size_t i = 0; allok && i < rn; ) { if (strncmp(res + i, "ok:", 3)) allok = 0; char *nl = memchr(res + i, '\n', rn - i); i = nl ? (size_t)(nl - res) + 1 : rn; }
+        if (allok) { for (size_t i = 0; i + 1 < rn; i++) if (res[i] == '\n') res[i] = '\036'; fwrite(res, 1, rn, stdout); }
         else if (complete && !strncmp(res, "construct-failed", 16)) { fwrite(res, 1, rn, stdout); }
         else {
             /* a descendant died while running the sources: classify by the partial output */
